@@ -177,6 +177,8 @@ struct IoEntry {
     std::function<LoadOutcome(std::streambuf *, std::string * redump, std::string * what)> load;  // loads into this stack's type
     std::function<void(Report &, bool thorough)> roundtrip;              // typed C06 oracle
 };
+// std::ios_base::iostate the caller has enabled exceptions for on the stream handed to the loader (0: the default mask)
+inline int g_stream_exceptions = 0;
 inline std::vector<IoEntry> & io_registry()
 {
     static std::vector<IoEntry> r;
@@ -279,6 +281,7 @@ inline IoEntry make_entry()
     e.load = [](std::streambuf * sb, std::string * redump, std::string * what) {
         try {
             std::istream is(sb);
+            if (g_stream_exceptions) is.exceptions(static_cast<std::ios_base::iostate>(g_stream_exceptions));
             covfie::field<B> g(is);
             if (redump) {
                 std::ostringstream o;
@@ -296,7 +299,9 @@ inline IoEntry make_entry()
     };
     e.roundtrip = [](Report & R, bool thorough) {
         const std::string key = std::string("roundtrip:") + S::key;
-        for (int var = 0; var < 4; ++var) {  // ordinary, special values, 1-cell extents, empty field
+        // ordinary, special values, 1-cell extents, empty field, and (stacks with an array) a payload of several KiB,
+        // larger than any buffer a loader is likely to read through
+        for (int var = 0; var < (std::is_void_v<typename S::T> ? 4 : 5); ++var) {
             covfie::field<B> f = S::make(var);
             long npat = 1;
             std::vector<long> pats = {-1, -2, -7};
